@@ -252,8 +252,11 @@ class Ctx:
         self.evaluations += 1
         if nontrivial:
             self.nontrivial.add(hashlib.blake2b(repr(canonical).encode(), digest_size=8).digest())
-        if sample is not None and len(self.samples) < 6:
-            self.samples.append(sample)
+        if sample is not None and len(self.samples) < 14:
+            # the first three cases, then one at every power of two: a spread over the whole run
+            n = self.evaluations
+            if n <= 3 or (n & (n - 1)) == 0:
+                self.samples.append(sample)
 
     def mismatch(self, op, inp, model, impl):
         if len(self.mismatches) < 50:
